@@ -220,7 +220,15 @@ func cmdWindow(args []string) {
 	})
 	nt := map[string]bool{}
 	execs, mem := 0, 0
+	statuses := map[string]bool{} // what each lint reports at its own boundary instants joins the status stream of C06
 	for i, e := range events {
+		if obs, ok := e["obs"].([]int); ok {
+			for k, st := range obs {
+				if k < len(jobs[i].b.idx) && st >= 0 {
+					statuses[fmt.Sprintf("%s|%d", byKind[jobs[i].kind][jobs[i].b.idx[k]].Name, st)] = true
+				}
+			}
+		}
 		w.Emit(e)
 		execs += len(jobs[i].b.idx)
 		for _, k := range nontriv[i] {
@@ -246,6 +254,12 @@ func cmdWindow(args []string) {
 	if len(events) > 0 {
 		sample = compact(events[len(events)/2])
 	}
+	var sl []string
+	for k := range statuses {
+		sl = append(sl, k)
+	}
+	sort.Strings(sl)
+	ev.WriteJSON(out("statuses.json"), sl)
 	ev.WriteJSON(out("summary.json"), ev.M{"boundaries": nb, "events": len(events), "execs": execs, "nontrivial": len(nt),
 		"lints_judged_at_a_boundary": len(lintsJudged), "in_memory_redated": mem, "sample": sample})
 }
